@@ -1,6 +1,8 @@
 import SV.Model.C01
 import SV.Model.C02
 import SV.Model.C11
+import SV.Model.C14
+import SV.Model.C13
 import SV.Model.C04
 import SV.Model.C03
 import SV.Model.C09
@@ -22,6 +24,8 @@ def dispatch (prop : String) : Option (String → String) :=
   | "C01" => some C01.Driver.handle
   | "C02" => some C02.Driver.handle
   | "C11" => some C11.Driver.handle
+  | "C14" => some C14.Driver.handle
+  | "C13" => some C13.Driver.handle
   | "C04" => some C04.Driver.handle
   | "C03" => some C03.Driver.handle
   | "C09" => some C09.Driver.handle
